@@ -16,12 +16,12 @@ pub const REPLAY: &[(&str, fn(&mut vsrc::ReplaySrc))] = &[
     ("c34_exec_step_anycap", |s| c34::exec_step::<_, 0>(s)),
     ("c34_da_step_f1", |s| c34::da_step::<_, 1>(s)),
     ("c34_da_step_f100", |s| c34::da_step::<_, 100>(s)),
-    ("c34_da_step_f1m", |s| c34::da_step::<_, 1_000_000>(s)),
+    ("c34_da_step_fany", |s| c34::da_step::<_, 0>(s)),
     ("c34_da_change_f1", |s| c34::da_change::<_, 1>(s)),
-    ("c34_da_change_f100", |s| c34::da_change::<_, 100>(s)),
-    ("c34_activity", |s| c34::activity(s)),
-    ("c34_da_record_f1", |s| c34::da_record::<_, 1>(s)),
-    ("c34_da_record_f100", |s| c34::da_record::<_, 100>(s)),
+    ("c34_activity_cap30m", |s| c34::activity::<_, 30_000_000>(s)),
+    ("c34_activity_anycap", |s| c34::activity::<_, 0>(s)),
+    ("c34_da_record_f1_b1000", |s| c34::da_record::<_, 1, 1000>(s)),
+    ("c34_da_record_f100_b0", |s| c34::da_record::<_, 100, 0>(s)),
     ("c34_l2_update_f1", |s| c34::l2_update::<_, 1, 30_000_000>(s)),
     ("c34_l2_update_f100", |s| c34::l2_update::<_, 100, 30_000_000>(s)),
     ("c35_total", |s| c35::total(s)),
